@@ -9,7 +9,7 @@ def known_matcher(d):
 
 
 CFG = {
-    "modules": ["HumphreyModel.Props.C01"],
+    "modules": ["HumphreyModel.Props.C01", "HumphreyModel.Props.C01Spec"],
     "rule": "connections against the real client_handler (hook verif_client_handler) on a scripted socket: sequences of "
             "1..6 requests over {GET,POST,PUT,DELETE,OPTIONS} x {routed, unrouted, CORS-configured, body-echoing, "
             "empty-body, panicking handler, host-specific} x Connection {keep-alive in any case, close, absent} x "
@@ -33,9 +33,14 @@ CFG = {
     "level_text": "serve_segmentation_independent: for EVERY client byte stream and any two segmentations the model of the "
                   "connection loop writes the same responses, dispatches the same requests and ends the same way "
                   "(simulation proof over the buffered-reader model); per-step theorems for 408, 400, disconnect, handler "
-                  "panic, keep-alive iff; completed_response_headers. That the written bytes satisfy every clause of the "
-                  "property is judged per case by the executable spec checkConn on the IMPLEMENTATION's output; the "
-                  "corresponding all-inputs Lean theorem (model meets checkConn) is not proved yet.",
+                  "panic, keep-alive iff; completed_response_headers. serve_meets_spec (Props/C01Spec.lean): for EVERY client stream, "
+                  "segmentation and idle pattern, every application whose handlers are well-behaved (CfgOk: known status, "
+                  "well-formed headers, no Content-Length/CORS headers of their own) the model's written bytes pass the "
+                  "executable spec checkConn — all branches: 408, 400, disconnect, upgrade, OPTIONS, unrouted 404, handler "
+                  "response, handler panic, keep-alive continuation and close — up to the recorded CRLF pad; the only extra "
+                  "hypothesis is NoBareCR (no bare CR in an echoed version / Connection value: the real parser accepts and "
+                  "echoes it, outside the property's quantifier). The same checkConn judges the IMPLEMENTATION's output in "
+                  "every correspondence case.",
     "level_note": "Trusted: Lean kernel; Model/Conn.lean tied to app.rs by byte-exact comparison of everything written. "
                   "Known finding: CRLF after a non-empty body (shared with C07).",
     "technique": "Lean 4 simulation proof + per-step lemmas; executable spec evaluated on the implementation's output",
